@@ -488,6 +488,9 @@ func c36BuildIndexUncached(w *c36World, variants []c36Doc) *c36Index {
 			// the same match on a long line: the result page cuts the text before and after a match
 			// to 100 bytes each (LimitPre/LimitPost), the payload lies inside the part that is kept
 			strings.Repeat("x", 130) + d.content + fmt.Sprintf(" needle%04d ", v) + d.content + strings.Repeat("y", 130) + "\n" +
+			// a line whose text after the match is 101 bytes and ends in a two-byte rune that straddles the
+			// 100-byte cut (the cut must not depend on finding a later rune start)
+			fmt.Sprintf("needle%04d ", v) + strings.Repeat("z", 98) + "é\n" +
 			"after " + d.content + "\n" +
 			fmt.Sprintf("hay%04d ", v) + d.contentMatch + " stack\n" +
 			"tail\n"
